@@ -8,7 +8,7 @@ from typing import Dict, List, Optional, Tuple
 from sa.canon import canon
 from sa.index import AnalysisError
 from sa.report import Ctx
-from sa.sym import FALSE, NONE, NOT, Summary, bind_args, conjuncts, show, subst, walk
+from sa.sym import callkw, FALSE, NONE, NOT, Summary, bind_args, conjuncts, show, subst, walk
 
 TASKS = "soundevent.evaluation.tasks"
 MET = "soundevent.evaluation.metrics"
@@ -129,8 +129,8 @@ class C09:
             for p in parts[1:]:
                 out = ("bin", "+", out, p)
             return out
-        if a[0] == "call" and a[1][0] == "attr" and a[1][2] == "sum" and dict(a[3]).get("axis") == ("const", 1) \
-                and dict(a[3]).get("keepdims") == ("const", True):
+        if a[0] == "call" and a[1][0] == "attr" and a[1][2] == "sum" and callkw(a).get("axis") == ("const", 1) \
+                and callkw(a).get("keepdims") == ("const", True):
             return ("const", 1)
         if a[0] == "bin" and a[1] in ("+", "-", "*", "/"):
             l, r = a[2], a[3]
@@ -173,7 +173,7 @@ class C09:
                 ctx.bad("R09.3", file, fname, f"return {show(t[1])}(...)",
                         f"metrics.{fname} delegates to {show(t[1])} instead of sklearn.metrics.{skname}", s.returns[0].lineno)
                 continue
-            kw = dict(t[3])
+            kw = callkw(t)
             args = list(t[2])
             ytrue = kw.get("y_true", args[0] if args else None)
             second = kw.get("y_pred", kw.get("y_score", args[1] if len(args) > 1 else None))
@@ -233,8 +233,8 @@ class C09:
         s = ctx.summ.of_func(MET, "jaccard")
         site = f"{file}:{s.node.lineno} jaccard"
         t = s.returns[0].term if len(s.returns) == 1 else None
-        if t is not None and t[0] == "call" and t[1] == sk("jaccard_score") and dict(t[3]).get("average") == ("const", "samples") \
-                and any(x[0] == "cmp" and x[1] == "lt" and x[2] == ("param", "threshold") for x in walk(dict(t[3]).get("y_pred", NONE))):
+        if t is not None and t[0] == "call" and t[1] == sk("jaccard_score") and callkw(t).get("average") == ("const", "samples") \
+                and any(x[0] == "cmp" and x[1] == "lt" and x[2] == ("param", "threshold") for x in walk(callkw(t).get("y_pred", NONE))):
             ctx.ok("R09.3", site, "jaccard_score(y_pred = y_score > threshold, average='samples')")
         else:
             ctx.bad("R09.3", file, "jaccard", f"return {show(t)[:100] if t else '-'}",
@@ -243,13 +243,13 @@ class C09:
             s = ctx.summ.of_func(MET, fname)
             site = f"{file}:{s.node.lineno} {fname}"
             t = s.returns[0].term if len(s.returns) == 1 else None
-            if t is not None and t[0] == "call" and t[1] == sk("average_precision_score") and dict(t[3]).get("average") == ("const", avg):
+            if t is not None and t[0] == "call" and t[1] == sk("average_precision_score") and callkw(t).get("average") == ("const", avg):
                 ctx.ok("R09.3", site, f"average_precision_score(average={avg!r})")
             else:
                 ctx.bad("R09.3", file, fname, f"return {show(t)[:100] if t else '-'}",
                         f"metrics.{fname} must be sklearn's average_precision_score(average={avg!r})", s.node.lineno)
             if fname == "mean_average_precision" and t is not None and t[0] == "call":
-                kw = dict(t[3])
+                kw = callkw(t)
                 yt, ysc = kw.get("y_true", NONE), kw.get("y_score", NONE)
                 from sa.memo import cases
                 worst = None
@@ -312,7 +312,7 @@ class C09:
             if len(ev) != 1:
                 ctx.undec("R09.5", site, "Evaluation(...) not found")
                 continue
-            kw = dict(ev[0][3])
+            kw = callkw(ev[0])
             if kw.get("evaluation_task") == ("const", tm):
                 ctx.ok("R09.5", site, f"evaluation_task={tm!r}")
             else:
@@ -340,8 +340,8 @@ class C09:
                     elt = x[2]
                     tabname = x[3][0][1][1].split(":")[1] if x[3][0][1][0] == "global" else "metrics (parameter)"
                     fsite = f"{m.relpath}:{fs.node.lineno} {name}"
-                    good = elt[0] == "call" and elt[1] == Feature and dict(elt[3]).get("term") == term
-                    val = dict(elt[3]).get("value") if elt[0] == "call" else None
+                    good = elt[0] == "call" and elt[1] == Feature and callkw(elt).get("term") == term
+                    val = callkw(elt).get("value") if elt[0] == "call" else None
                     good = good and val is not None and val[0] == "call" and val[1] == fn and not x[3][0][2]
                     if good:
                         nargs = len(val[2]) + len(val[3])
@@ -409,7 +409,7 @@ class C09:
             for e in fs.events:
                 for x in walk(e.term):
                     if x[0] == "call" and x[1][0] == "global" and x[1][2] == "class" and x[1][1].split(":")[1] in level.values():
-                        mv = dict(x[3]).get("metrics")
+                        mv = callkw(x).get("metrics")
                         if mv is None:
                             continue
                         tabs = self.tables_of(mv, modname, m, name, fs, 0)
